@@ -378,6 +378,7 @@ def rsp_real_cases(tools: Tools, strings: T.List[str], work: Path) -> T.List[T.D
 # position name -> (TLC position class, family)
 COMPILE_SHARED = ['c_args.option', 'c_args.global', 'c_args.project']
 LINK_SHARED = ['link_args.option', 'link_args.global', 'link_args.project']
+BOUNDARY_POSITIONS = ['custom_target.boundary', 'run_target.boundary', 'custom_target.boundary-envobj']
 CUSTOM_POSITIONS = ['custom_target', 'custom_target.capture', 'custom_target.feed', 'custom_target.env',
                     'custom_target.envobj', 'custom_target.capture+env', 'custom_target.envvalue',
                     'run_target', 'run_target.envvalue', 'generator', 'generator.capture', 'generator.envvalue',
@@ -533,6 +534,33 @@ class ProjectBuilder:
         else:
             raise MachineryError('unknown position ' + posname)
 
+    def boundary_family(self, kind: str, members: T.List[T.List[str]]) -> None:
+        """Commands that all need the pickled wrapper and whose argument lists differ only in where the
+        boundaries between the arguments fall (same program, same concatenation, same env): every target must
+        still be run with ITS OWN argument list."""
+        fam = self.uid()
+        tool = self.tool
+        for mem in members:
+            k = self.uid()
+            out = f'o{k}.out'
+            env: T.List[T.Tuple[str, str]] = []
+            if kind == 'custom_target.boundary-envobj':
+                args = [tool] + mem
+                env = [('C03V0', 'x y:z w')]
+                self.lines.append(f"env{k} = environment()\nenv{k}.set('C03V0', 'x y')\nenv{k}.append('C03V0', 'z w')")
+                extra = f', env: env{k}'
+            else:
+                args = [tool, 'l1\nl2'] + mem           # the newline forces the serialised form
+                extra = ''
+            cmd = mlist(['tool'] + [mlit(a) for a in args[1:]])
+            if kind.startswith('custom_target'):
+                self.lines.append(f"custom_target({mlit('bt%d' % k)}, output: {mlit(out)}, command: {cmd}{extra})")
+                find: T.Tuple[str, str] = ('out', out)
+            else:
+                self.lines.append(f"run_target({mlit('br%d' % k)}, command: {cmd})")
+                find = ('out', f'meson-internal__br{k}')
+            self.item(posname=kind, tlcpos='custom', args=args, src=args, env=env, find=find, family=fam)
+
     def templates(self) -> None:
         """R1: the documented placeholders, embedded in odd surroundings."""
         k = self.uid()
@@ -636,7 +664,7 @@ def run_project(spec: T.Dict[str, T.Any], root: Path, tools_root: str, level3: b
                  'env': [[cp(k), cp(v)] for k, v in it.get('env', [])], 'tmpl': [],
                  'obs': {'argv': [cp(a) for a in list(ts.fname) + list(ts.cmd_args)],
                          'env': [[cp(k), cp(v)] for k, v in obs_env.items()]},
-                 'has_real': 0, 'real': [], 'tag': how[1]}
+                 'has_real': 0, 'real': [], 'runs': 0, 'tag': how[1]}
             cases.append(c)
             continue
         if how[0] == 'out':
@@ -690,10 +718,17 @@ def run_project(spec: T.Dict[str, T.Any], root: Path, tools_root: str, level3: b
             for bench in (False, True):
                 if not any((c['id'].split('/')[1].startswith('benchmark')) == bench for c in tcases):
                     continue
-                r = projgen.run_meson(['test', '-C', str(bld), '--no-rebuild', '--num-processes', '4', '-t', '20'] + (['--benchmark'] if bench else []),
+                # every test object is executed several times in one invocation (--repeat: one runner per
+                # iteration, all created from the same un-pickled TestSerialisation)
+                rep = 2 if bench else 3
+                r = projgen.run_meson(['test', '-C', str(bld), '--no-rebuild', '--num-processes', '4', '-t', '20', '--repeat', str(rep)]
+                                      + (['--benchmark'] if bench else []),
                                       env={'C03_DUMP_DIR': str(tdir)}, timeout=1800)
                 if r.returncode != 0:
                     raise MachineryError(f'{pid}: meson test failed (rc={r.returncode}): ' + (r.stdout + r.stderr)[-600:])
+                for c in tcases:
+                    if (c['id'].split('/')[1].startswith('benchmark')) == bench:
+                        c['runs'] = rep
             for c in tcases:
                 c['has_real'] = 1
                 c['real'] = read_dumps(tdir / c['tag'])
@@ -789,6 +824,37 @@ def plan_projects(tool: str, tier: str, seed: int, alphabet: T.Sequence[int]) ->
             pb.custom(posname, chunk)
         if pj == 0:
             pb.templates()
+        specs.append(pb.spec())
+    # ---- argument-boundary families: several serialised commands in ONE build directory whose argv differ only
+    # in where the boundaries fall (a name derived from the concatenated arguments would make them collide)
+    fams: T.List[T.List[T.List[str]]] = [
+        [['ab', 'c'], ['a', 'bc'], ['abc'], ['abc', ''], ['', 'abc'], ['a', 'b', 'c'], ['', 'a', '', 'bc', '']],
+        [['-D', 'FOO', '=1'], ['-D', 'FOO=', '1'], ['-DFOO=1'], ['-D', 'FOO=1'], ['-DFOO', '=1']],
+        [['x y', ' z'], ['x ', 'y z'], ['x y z'], ['x', 'y', 'z'], ['x', 'y z']],
+        [['a', 'b'], ['a b'], ['a,b'], ["a', 'b"], ['a", "b'], ['a\', \'b'], ['a\\', 'b'], ['a', '\\b']],
+        [['x', ''], ['x'], ['', 'x'], ['', '', 'x']],
+    ]
+    for _ in range(2 if quick else 30):
+        w = ''.join(rnd.choice([chr(c) for c in alphabet if c != 10]) for _ in range(rnd.randint(3, 6)))
+        mem: T.List[T.List[str]] = []
+        for _ in range(6):
+            cuts = sorted(rnd.randint(0, len(w)) for _ in range(rnd.randint(0, 3)))
+            pieces = [w[a:b] for a, b in zip([0] + cuts, cuts + [len(w)])]
+            if pieces not in mem:
+                mem.append(pieces)
+        if len(mem) >= 2:
+            fams.append(mem)
+    kinds = ['custom_target.boundary', 'run_target.boundary', 'custom_target.boundary-envobj']
+    nbp = 1 if quick else 3
+    for pj in range(nbp):
+        pb = ProjectBuilder(f'g{pj}', '', tool)
+        for fi, fam in enumerate(fams):
+            if fi % nbp != pj:
+                continue
+            for ki, kind in enumerate(kinds):
+                if quick and fi >= 5 and ki != fi % 3:
+                    continue
+                pb.boundary_family(kind, fam)
         specs.append(pb.spec())
     # ---- newline strings: one small project per position, so that a refusal names the position
     if withnl:
@@ -893,6 +959,8 @@ def report(chk: Check, v: T.Dict[str, T.Any], case: T.Dict[str, T.Any], ix: T.Di
             sig = f'{clause}@{pos}:ch={c}'
         elif clause.startswith('Wrapper:') or clause in ('SentinelLost', 'SentinelOrder', 'EmptyCommandLine', 'RuntimeProcessCount'):
             sig = f'{clause}@{pos}'
+        elif clause == 'RuntimeEnv' and kind == 'test':
+            sig = f'{clause}@{pos}/test'
         elif clause in ('EnvDiffers', 'RuntimeEnv'):
             env = ix.get('env') or []
             val = env[k - 1][1] if 0 < k <= len(env) else ''
